@@ -66,6 +66,14 @@ func (p *Parser) parseJournal() *ast.Journal {
 					journal.Directives = append(journal.Directives, dir)
 				}
 			}
+		case TokenIndent:
+			indent := p.current
+			p.advance()
+			if p.current.Type == TokenNewline || p.current.Type == TokenEOF {
+				continue // a line of blanks is a blank line
+			}
+			p.errorAt(indent.Pos, "unexpected token: %s", indent.Type)
+			p.skipToNextLine()
 		default:
 			p.error("unexpected token: %s", p.current.Type)
 			p.skipToNextLine()
